@@ -51,6 +51,40 @@ def image(code, sp=150000):
 EXIT_AREG = enc(1, 1) + enc(8, 2) + enc(3, 0) + bytes([0xD3])        # LDBM 1; STAI 2; LDAC 0; OPR SVC
 
 
+def with_debug_section(binary, rng):
+    """append a string table and a symbol table (as hexasm writes them) to a header+image file"""
+    names = [b'main', b'p%d' % rng.randrange(10), b'a_longer_name'][:rng.randint(1, 3)]
+    out = bytearray(binary)
+    out += len(names).to_bytes(4, 'little')
+    for n in names:
+        out += n + b'\0'
+    out += len(names).to_bytes(4, 'little')
+    for i, n in enumerate(names):
+        out += i.to_bytes(4, 'little') + (8 + 4 * i).to_bytes(4, 'little')
+    return bytes(out)
+
+
+def gen_past_image(rng):
+    """reads the words just past its own image (where a loader that copies too much would put the debug tables), sums them into the exit value"""
+    nk = rng.randint(1, 4)
+
+    def build(nwords_guess):
+        code = bytearray()
+        code += enc(3, 0)                                   # LDAC 0
+        for k in range(nk):
+            code += enc(1, nwords_guess + k) + bytes([0xD1])    # LDBM past+k ; OPR ADD
+        code += EXIT_AREG
+        return image(bytes(code))
+    nw = 20
+    for _ in range(6):                       # the address of "past the image" depends on the image's own size
+        b = build(nw)
+        nw2 = int.from_bytes(b[:4], 'little')
+        if nw2 == nw:
+            break
+        nw = nw2
+    return with_debug_section(b, rng)
+
+
 def gen_image(rng):
     """programs that read words they never wrote, print them and exit with a value derived from them"""
     code = bytearray()
@@ -126,6 +160,14 @@ def main():
         for k in range(nimg):
             p = os.path.join(d, 'u%d.bin' % k)
             open(p, 'wb').write(gen_image(rng))
+            bins.append((p, 'unwritten-reads'))
+        for k in range(6 if not ck.thorough() else 200):
+            p = os.path.join(d, 'past%d.bin' % k)
+            open(p, 'wb').write(gen_past_image(rng))
+            bins.append((p, 'unwritten-reads'))
+        for k in range(4 if not ck.thorough() else 100):
+            p = os.path.join(d, 'usym%d.bin' % k)
+            open(p, 'wb').write(with_debug_section(gen_image(rng), rng))
             bins.append((p, 'unwritten-reads'))
         for n in (1, 5, 40):
             p = os.path.join(d, 'loop%d.bin' % n)
